@@ -137,6 +137,7 @@ type rsRewinds struct {
 	dead       bool // this driver instance belongs to a stopped node
 	entered    int
 	failLPB    int // the next reads of the last-processed marker fail (a transiently busy database)
+	failPB     int // the next ProcessBlock calls fail before touching the store (transient storage fault)
 }
 
 type rsWorld struct {
@@ -232,6 +233,19 @@ func (p *rsProcWrap) GetLastProcessedBlock(ctx context.Context) (uint64, error) 
 		return 0, fmt.Errorf("verif: database is locked")
 	}
 	return p.rsFull.GetLastProcessedBlock(ctx)
+}
+
+func (p *rsProcWrap) ProcessBlock(ctx context.Context, b sync.Block) error {
+	p.rw.mu.Lock()
+	f := p.rw.failPB
+	if f > 0 {
+		p.rw.failPB--
+	}
+	p.rw.mu.Unlock()
+	if f > 0 {
+		return fmt.Errorf("verif: database is locked")
+	}
+	return p.rsFull.ProcessBlock(ctx, b)
 }
 
 func (p *rsProcWrap) Reorg(ctx context.Context, first uint64) error {
@@ -414,9 +428,16 @@ func (w *rsWorld) exec(line string) string {
 		w.chain.fin = u(ws[1])
 		w.chain.mu.Unlock()
 		return "ok"
-	case "step": // step <sub> <n>: the subscriber's driver receives and processes up to n more blocks
+	case "step", "step!": // step <sub> <n>: the subscriber's driver receives and processes up to n more blocks
 		s := w.sub(ws[1])
 		n := int(u(ws[2]))
+		if ws[0] == "step!" {
+			// the first attempt(s) at the next block fail with a transient storage error: the driver must retry, not move on
+			s.rw.mu.Lock()
+			s.rw.failPB = 1 + len(w.lines)%2
+			s.rw.mu.Unlock()
+			w.r.Count("step-with-storage-fault")
+		}
 		for i := 0; i < n; i++ {
 			s.dl.mu.Lock()
 			run := s.dl.cur
@@ -435,7 +456,8 @@ func (w *rsWorld) exec(line string) string {
 			deadline := time.Now().Add(5 * time.Second)
 			for len(w.stored(s)) == before {
 				if time.Now().After(deadline) {
-					panic("harness: delivered block was not processed")
+					w.fail(fmt.Sprintf("[C05,C06,C07] a block handed to subscriber %s's driver was never stored (op `%s`): after a failed ProcessBlock the driver must retry the same block, not drop it", s.id, ws[0]))
+					panic(stopRun{})
 				}
 				time.Sleep(100 * time.Microsecond)
 			}
@@ -755,7 +777,11 @@ func rsGen(r *Run, rng *Rng) {
 			case x < 25:
 				do(fmt.Sprintf("blk %d", rng.Intn(3)))
 			case x < 55:
-				do(fmt.Sprintf("step %s %d", []string{"A", "B"}[rng.Intn(2)], 1+rng.Intn(3)))
+				op := "step"
+				if rng.Chance(20) {
+					op = "step!"
+				}
+				do(fmt.Sprintf("%s %s %d", op, []string{"A", "B"}[rng.Intn(2)], 1+rng.Intn(3)))
 			case x < 66:
 				do("detect")
 			case x < 70:
